@@ -225,6 +225,55 @@ func checkC03(c *core.Ctx) error {
 		c.Check(bad == "", "C03.R4", cons, "iteration domain covers the source", pos,
 			"the loop runs over the receiver's own "+bad+"(): positions where the receiver has no entry are never written, so copying into an empty (or differently patterned) receiver drops elements")
 	})
+	// R4 (dense receivers): Set/SET of a dense container has to overwrite every element; a loop driven by the operand's
+	// iterator visits only the operand's stored (non-zero) entries and leaves the rest of the receiver as it was
+	core.EachFunc(pkg, func(_ *ast.File, fd *ast.FuncDecl) {
+		T := core.RecvTypeName(fd)
+		if !strings.HasPrefix(T, "Dense") || strings.Contains(T, "Iterator") || fd.Recv == nil || fd.Body == nil {
+			return
+		}
+		if fd.Name.Name != "Set" && fd.Name.Name != "SET" {
+			return
+		}
+		params := map[types.Object]bool{}
+		for _, f := range fd.Type.Params.List {
+			for _, n := range f.Names {
+				params[info.Defs[n]] = true
+			}
+		}
+		cons := "(*" + T + ")." + fd.Name.Name
+		bad := ""
+		var pos token.Pos
+		nloops := 0
+		ast.Inspect(fd.Body, func(n ast.Node) bool {
+			fs, ok := n.(*ast.ForStmt)
+			if !ok {
+				return true
+			}
+			nloops++
+			as, ok := fs.Init.(*ast.AssignStmt)
+			if !ok || len(as.Rhs) != 1 {
+				return true
+			}
+			ce, ok := as.Rhs[0].(*ast.CallExpr)
+			if !ok {
+				return true
+			}
+			if se, ok := ce.Fun.(*ast.SelectorExpr); ok && strings.Contains(strings.ToLower(se.Sel.Name), "iterator") {
+				if id, ok := ast.Unparen(se.X).(*ast.Ident); ok && params[info.Uses[id]] {
+					bad = se.Sel.Name
+					pos = fs.Pos()
+				}
+			}
+			return true
+		})
+		if nloops == 0 {
+			c.OK("C03.R4", cons, "no own loop (delegates)", fd.Pos(), "")
+			return
+		}
+		c.Check(bad == "", "C03.R4", cons, "every element of the dense receiver is overwritten", pos,
+			"the loop runs over the operand's "+bad+"(): a sparse operand yields only its stored non-zero entries, so the other elements of the dense receiver keep their old values")
+	})
 	// R4b: Equals/EQUALS of sparse containers report inequality only after comparing element values
 	core.EachFunc(pkg, func(_ *ast.File, fd *ast.FuncDecl) {
 		T := core.RecvTypeName(fd)
